@@ -43,6 +43,12 @@ func verifDocBody(h *verifsim.Host, path string, big bool) string {
 /* installs the chain for one case and returns the URL to fetch plus the response carrying the fault */
 func verifInstall(sim *verifsim.Sim, c verifFaultCase, apply bool) (string, []byte, int) {
 	hosts := []*verifsim.Host{sim.Host("f1"), sim.Host("f2"), sim.Host("f3")}
+	/* any other path on these hosts yields a perfectly valid decoy document, so a truncated
+	   Location that is followed anyway shows up as a document instead of an error */
+	for _, h := range hosts {
+		h.Fallback = &verifsim.Route{Raw: []byte("HTTP/1.1 200 OK\r\nContent-Type: application/activity+json\r\n\r\n" +
+			`{"id":"https://` + h.Addr + `/decoy","type":"Note","tag":"decoy","content":"decoy"}`)}
+	}
 	var faultRaw []byte
 	jsonEnd := 0
 	for i := 0; i <= c.hops; i++ {
